@@ -26,12 +26,13 @@ CODES = {1: 'model Utils.storage_slots_used differs from utils::storage_slots_us
          2: 'slot count differs from the layout rule (consecutive members share a slot while they fit in 256 bits)',
          3: 'model verdict differs from pack_storage_variables',
          4: 'model verdict differs from pack_struct_variables',
-         5: 'verdict violates the property (reported without a better reordering, or not reported although both sorts save a slot)'}
+         5: 'pack_storage_variables verdict violates the property (reported without a better reordering, or not reported although both sorts save a slot)',
+         6: 'pack_struct_variables verdict violates the property (reported without a better reordering, or not reported although both sorts save a slot)'}
 PCODES = {1: 'model Opt_pack.pack_storage_variables_optimization differs from the implementation',
           2: 'model Opt_pack.pack_struct_variables_optimization differs from the implementation',
           3: 'pack_storage_variables: a verdict violates the property, or a reported location is not a top-level contract',
           4: 'pack_struct_variables: a verdict violates the property, or a reported location is not a struct definition'}
-SPEC_CODES = {2, 5}
+SPEC_CODES = {2, 5, 6}
 
 
 def digest_bin(ctx):
@@ -182,6 +183,46 @@ def exhaustive(rep, ctx, length, blocks, tag):
     return n, rep_n, len(bad), found
 
 
+# ------------------------------------------------------------------ type sizes
+def statement_size(name):
+    """the table in the statement of C10: bool=8, address=160, (u)intN=N, bytesN=8N, 256 otherwise"""
+    import re
+    if name == 'bool':
+        return 8
+    if name in ('address', 'address_payable'):
+        return 160
+    m = re.fullmatch(r'u?int(\d+)', name)
+    if m:
+        return int(m.group(1))
+    m = re.fullmatch(r'bytes(\d+)', name)
+    if m:
+        return 8 * int(m.group(1))
+    return 256
+
+
+def type_table(rep, ctx):
+    """get_type_size on 798 type expressions: implementation vs model (Coq) vs the statement's table"""
+    lines = [l.split() for l in run_bin([digest_bin(ctx), 'types']).split('\n') if l]
+    vals = vlib.coq_eval_plain([[('eval', 'type_size_answers')]], 'Lift Pt Walk Cases Utils Opt_pack PackCases', 'c10-types')[0][0]
+    if len(vals) != len(lines):
+        raise vlib.BuildError('type lists of vh_digest and PackCases.type_cases differ in length')
+    found = False
+    bad_s = [(n, v) for (n, v) in lines if v == 'PANIC' or int(v) != statement_size(n)]
+    bad_m = [(n, v, m) for (n, v), m in zip(lines, vals) if v == 'PANIC' or int(v) != m]
+    if bad_s:
+        n, v = bad_s[0]
+        rep.violation('get_type_size(%s) = %s, the statement says %d' % (n, v, statement_size(n)),
+                      {'kind': 'S', 'input': {'type': n}, 'implementation': v, 'specified': statement_size(n),
+                       'all_wrong': bad_s[:20], 'theorem': 'type_size_table', 'rust_function': 'utils::get_type_size'})
+        found = True
+    elif bad_m:
+        n, v, m = bad_m[0]
+        rep.violation('get_type_size(%s) = %s, model %d' % (n, v, m),
+                      {'kind': 'M', 'input': {'type': n}, 'implementation': v, 'model': m, 'model_function': 'Opt_pack.get_type_size',
+                       'rust_function': 'utils::get_type_size'}, no_input=True)
+    return len(lines), found
+
+
 # ------------------------------------------------------------------ random long sequences
 def random_seqs(ctx, n):
     rng = random.Random(ctx.seed * 1000003 + 10)
@@ -329,6 +370,10 @@ def eval_programs(ctx, progs, name):
 def run(rep, ctx):
     found = False
     quick = ctx.tier == 'quick'
+    # (0) the size table
+    n_types, f = type_table(rep, ctx)
+    found = found or f
+    log('type sizes: %d type expressions' % n_types)
     # (1) exhaustive by digest
     ex = {}
     for length in ([1, 2, 3, 4] if quick else [1, 2, 3, 4, 5]):
@@ -376,10 +421,13 @@ def run(rep, ctx):
                       no_input=not is_spec)
         found = found or is_spec
     nontrivial_seq = sum(1 for s in seqs if len(s) >= 2 and all(0 < x <= 256 for x in s))
-    rep.coverage['evaluations'] = n_ex + len(rs) + len(out)
+    rep.coverage['evaluations'] = n_types + n_ex + len(rs) + len(out)
+    rep.coverage['type_expressions'] = n_types
     rep.coverage['distinct_nontrivial'] = (sum(v['sequences'] for l, v in ex.items() if l >= 2) + nontrivial_seq +
                                            len(set(p['src'] for p, r, c, s in out if s[1] + s[4] > 0)))
-    rep.coverage['rule'] = ('inputs: (a) every sequence of length <= %d over the 32 byte-granular sizes 8..256 (by digest, %s blocks: '
+    rep.coverage['rule'] = ('inputs: (0) get_type_size on 798 type expressions (all uintN/intN for N <= 264 and 65535, all bytesN for N <= 255, '
+                            'bool, address, address payable, the types without a size, a non-type expression) against the model and the table in '
+                            'the statement; (a) every sequence of length <= %d over the 32 byte-granular sizes 8..256 (by digest, %s blocks: '
                             'implementation slot count and the verdicts of both detectors = model; slot count = layout rule; every verdict '
                             'satisfies the three clauses, all reorderings tried); (b) seeded random sequences up to 300 members incl. sizes '
                             'no type has and u16-overflow panics; (c) seeded random Solidity files + the shapes of /repo\'s own tests. '
@@ -409,6 +457,11 @@ def replay(obj):
     ctx.seed = 1
     ctx.harness = vlib.build_harness()
     inp = obj['input']
+    if 'type' in inp:
+        rep = vlib.Report('C10', 'quick', 1)
+        n, f = type_table(rep, ctx)
+        print('type table re-checked on %d type expressions:' % n, 'FAILS' if rep.violations else 'agrees')
+        return 1 if rep.violations else 0
     if 'sizes' in inp:
         s, im, codes = explicit_seqs(ctx, [inp['sizes']], 'c10-replay')[0]
         print('member sizes:', s)
